@@ -121,10 +121,13 @@ pub fn diff(c: &SeqCase, opts: DiffOpts) -> DiffOut {
   // factory calls are only compared where no operator may legitimately decide not to
   // subscribe an input at all (amb once a winner exists, merge / zip / gates after an early
   // synchronous end): DESIGN.md 2.5, "subscription counts"
+  // (how often a shared connection subscribes its source around an early end is bookkeeping
+  // no statement fixes: only the traces are compared for pipelines with ref_count / replay)
+  let has_conn = c.case.root.has_op(&|n| matches!(n, Node::Un(Op::RefCount, _) | Node::Un(Op::ReplayConn, _)));
   let may_skip_inputs = c.case.root.has_op(&|n| {
     matches!(n, Node::Nary(Comb::Amb, _) | Node::Nary(Comb::Merge, _) | Node::Nary(Comb::Zip, _) | Node::Nary(Comb::CombineLatest, _) | Node::Nary(Comb::SequenceEqual, _) | Node::Gate(_, _, _))
   });
-  if opts.check_factories && !may_skip_inputs && rep.fail.is_none() && m.factory_calls != r.log.factory_calls {
+  if opts.check_factories && !may_skip_inputs && !has_conn && rep.fail.is_none() && m.factory_calls != r.log.factory_calls {
     rep.fail = Some(format!(
       "defer/start factories were called {:?} times (id, calls), reference {:?} | {}",
       r.log.factory_calls,
@@ -132,7 +135,7 @@ pub fn diff(c: &SeqCase, opts: DiffOpts) -> DiffOut {
       c.case.show()
     ));
   }
-  if opts.check_persub_counts && rep.fail.is_none() {
+  if opts.check_persub_counts && !has_conn && rep.fail.is_none() {
     let mut persub = Vec::new();
     c.case.root.walk(&mut |n| {
       if let Node::Src(sid, Src::PerSub { .. }) = n {
@@ -575,6 +578,9 @@ fn c04_cfg(ctx: &Ctx) -> CaseCfg {
       err_weight: 6,
       combine: true,
       recovery: true,
+      // publish().ref_count() / replay().ref_count() below the recovery operators: a retry
+      // re-subscribes the shared connection from inside its error delivery
+      connectable: true,
       exclude,
       ..GenCfg::default()
     },
@@ -621,7 +627,9 @@ fn c04_hot_strategy(_ctx: &Ctx) -> BoxedStrategy<SeqCase> {
   let kind = prop::sample::select(vec![HotKind::Subject, HotKind::Subject, HotKind::Behavior(9), HotKind::Replay]);
   let seg = || prop::collection::vec(0i64..6, 0..=2);
   let segs = prop::collection::vec((seg(), 1u32..4), 1..=3);
-  let idop = || prop::collection::vec(prop_oneof![Just(Op::Map(MapF::Add(1))), Just(Op::Filter(Pred::True)), Just(Op::Skip(1))], 0..=1);
+  // (a shared connection below the recovery operator: the retry re-subscribes publish().ref_count()
+  // from inside the error delivery of the connection that just failed)
+  let idop = || prop::collection::vec(prop_oneof![2 => Just(Op::Map(MapF::Add(1))), 1 => Just(Op::Filter(Pred::True)), 1 => Just(Op::Skip(1)), 2 => Just(Op::RefCount)], 0..=1);
   (kind, segs, seg(), 0u8..3, 0u8..6, 0usize..4, idop(), idop(), 0u64..4)
     .prop_map(|(kind, segs, tail, ending, rec, n, pre, post, hash_seed)| {
       let sticky = kind != HotKind::Subject;
